@@ -75,6 +75,9 @@ pub fn replay(c: &Value) -> Option<(String, String)> {
     let texts: Vec<String> = serde_json::from_value(c["texts"].clone()).ok()?;
     let desc = c["desc"].as_str()?;
     let clip = c["clip"].as_u64().unwrap_or(u64::MAX) as usize;
+    if c["rawdesc"] == true {
+        return check_model(&spec, pt, tail, &texts).map(|(k, w)| (format!("{k} {desc}"), w));
+    }
     check_model(&spec, pt, tail, &texts).map(|(k, w)| (format!("{k} {desc} pt={} tail={tail}", pt as u8), if w.chars().count() > clip { w.chars().take(clip).collect() } else { w }))
 }
 
@@ -96,6 +99,7 @@ pub fn run(tier: Tier) -> ! {
         }
     }
     pool.extend(crate::c06::zero_tag_family());
+    pool.extend(crate::c06::extreme_tag_family());
     pool.extend(crate::c06::nested_tag_family().into_iter().step_by(7));
     pool.extend(crate::c01::edge_family());
     pool.extend(crate::c01::leading_zero_family());
@@ -103,6 +107,21 @@ pub fn run(tier: Tier) -> ! {
     pool.extend(crate::c01::sparse_large_window_family());
     pool.extend(crate::c06::scale_tag_family(tier.pick(5000, 70000)));
     pool.extend(crate::c01::many_entries_family(tier));
+    // F7 again with texts longer than twice its windows (the far end of a long weight vector is used only there)
+    {
+        let f7 = crate::c01::sparse_large_window_family();
+        let t7 = crate::c01::long_window_texts();
+        f7.par_iter().enumerate().for_each(|(i, (desc, spec))| {
+            for pt in [false, true] {
+                let tail = (i + pt as usize) % 4;
+                chk.eval(t7.len() as u64);
+                chk.nontrivial(t7.len() as u64);
+                if let Some((k, what)) = check_model(spec, pt, tail, &t7) {
+                    chk.violation(format!("{k} {desc} pt={} tail={tail} long-texts", pt as u8), what, json!({"desc": format!("{desc} pt={} tail={tail} long-texts", pt as u8), "spec": spec, "predict_tags": pt, "tail": tail, "texts": t7, "rawdesc": true}));
+                }
+            }
+        });
+    }
     // F12: one long vector per model, with its own texts (the long pattern occurs in them)
     {
         let f12 = crate::c01::long_vector_family(tier);
